@@ -245,6 +245,9 @@ def call_class(I, c, args, kwargs, fr, node):
         args = [v] + list(args[1:])
         if isinstance(v, VInt):
             return v
+        if isinstance(v, VReal) and len(args) == 1:
+            # int(x) truncates toward zero (z3's to_int is floor)
+            return VInt(z3.If(v.t >= 0, z3.ToInt(v.t), -z3.ToInt(-v.t)))
         if isinstance(v, VStr):
             hook = I.reg.extern_contract('builtins.int')
             if hook is not None:
